@@ -1,112 +1,199 @@
 package vsched
 
-import "fmt"
+import (
+	"fmt"
+	"time"
+)
 
 var Debug bool
 
-// Explorer performs preemption-bounded DFS.
-type Explorer struct {
-	Bound      int
-	Body       func()
-	Check      func(s *Sched) error // oracle per execution
-	Executions int
-	Steps      int
-	MaxDepth   int
-	Failures   []Failure
-	MaxExec    int
-	Outcomes   map[string]int
-	Outcome    func() string
-	Seen       map[uint64]int
-	Pruned     int
-	UseCache   bool
+// Config describes one bounded exploration.
+type Config struct {
+	// Delay selects delay bounding (every choice of a thread other than the
+	// default one costs 1; alternatives of the default thread are free).
+	// Otherwise preemption bounding (switching away from an enabled running
+	// thread costs 1; everything else is free).
+	Delay bool
+	// Bound is the largest budget explored; bounds 0..Bound are explored in turn
+	// (iterative deepening, so the first counterexample has the fewest deviations).
+	Bound int
+	// NoCache disables happens-before state caching.
+	NoCache bool
+	// MaxExec and Budget cap the work; hitting either makes the result incomplete.
+	MaxExec int
+	Budget  time.Duration
+	// ForeignGrace: see Sched.ForeignGrace.
+	ForeignGrace time.Duration
+	// MaxFailures stops the exploration after that many failing executions (default 3).
+	MaxFailures int
 }
 
+// Failure is one failing execution, replayable from Choices.
 type Failure struct {
 	Choices []int
 	Err     string
 	Trace   []Point
+	Bound   int
 }
 
-func (e *Explorer) Run() {
-	e.Outcomes = map[string]int{}
-	if e.UseCache {
-		e.Seen = map[uint64]int{}
+// Result of an exploration.
+type Result struct {
+	Executions     int // executions run (including those cut by the cache)
+	Complete       int // executions that ran to completion and were checked
+	Pruned         int // executions cut at an already-visited happens-before state
+	Steps          int // scheduling steps executed (transitions)
+	States         int // distinct happens-before state keys recorded (last bound)
+	MaxDepth       int
+	BoundCompleted int // largest bound fully explored (-1: none)
+	Exhausted      bool
+	Failures       []Failure
+	Outcomes       map[string]int
+	Unmanaged      int
+	StoppedBy      string
+	SampleTrace    []Point
+}
+
+// Explorer enumerates schedules of Body.
+type Explorer struct {
+	Cfg  Config
+	Body func()
+	// Check is the per-execution oracle, called after complete executions (monitor
+	// failures recorded with Fail are collected for every execution, complete or cut).
+	Check func(s *Sched) error
+	// Outcome labels a complete execution (vacuity indicator).
+	Outcome func() string
+
+	res   *Result
+	seen  map[uint64]int
+	bound int
+	start time.Time
+	stop  bool
+}
+
+// Run explores bounds 0..Cfg.Bound.
+func (e *Explorer) Run() *Result {
+	e.res = &Result{Outcomes: map[string]int{}, BoundCompleted: -1}
+	e.start = time.Now()
+	DelayMode = e.Cfg.Delay
+	if e.Cfg.MaxFailures == 0 {
+		e.Cfg.MaxFailures = 3
 	}
-	e.explore(nil)
+	for b := 0; b <= e.Cfg.Bound && !e.stop; b++ {
+		e.bound = b
+		e.seen = nil
+		if !e.Cfg.NoCache {
+			e.seen = map[uint64]int{}
+		}
+		e.explore(nil, nil)
+		if !e.stop {
+			e.res.BoundCompleted = b
+			e.res.States = len(e.seen)
+		}
+	}
+	e.res.Exhausted = !e.stop
+	return e.res
 }
 
-func (e *Explorer) explore(prefix []int) {
-	if e.MaxExec > 0 && e.Executions >= e.MaxExec {
+// Replay runs exactly one execution following choices.
+func (e *Explorer) Replay(choices []int) (*Sched, error) {
+	DelayMode = e.Cfg.Delay
+	s := RunOnceCfg(choices, nil, e.Body, nil, e.Cfg.ForeignGrace)
+	return s, e.verdict(s)
+}
+
+func (e *Explorer) verdict(s *Sched) error {
+	switch {
+	case s.Diverged != "":
+		return fmt.Errorf("NONDETERMINISM: %s", s.Diverged)
+	case len(s.Fails) > 0:
+		return fmt.Errorf("%s", s.Fails[0])
+	case s.Deadlock:
+		return fmt.Errorf("deadlock:\n%s", s.Report)
+	case s.Pruned:
+		return nil
+	}
+	if e.Check != nil {
+		return e.Check(s)
+	}
+	return nil
+}
+
+func (e *Explorer) explore(prefix []int, prefixFP []uint64) {
+	if e.stop {
 		return
 	}
-	s := RunOnce(prefix, e.Body, e.Seen)
+	if e.Cfg.MaxExec > 0 && e.res.Executions >= e.Cfg.MaxExec {
+		e.stop, e.res.StoppedBy = true, "max executions"
+		return
+	}
+	if e.Cfg.Budget > 0 && time.Since(e.start) > e.Cfg.Budget {
+		e.stop, e.res.StoppedBy = true, "time budget"
+		return
+	}
+	s := RunOnceCfg(prefix, prefixFP, e.Body, e.seen, e.Cfg.ForeignGrace)
 	if Debug {
 		fmt.Printf("  exec prefix=%v len=%d pruned=%v\n", prefix, len(s.trace), s.Pruned)
 	}
-	e.Executions++
-	e.Steps += len(s.trace)
-	if len(s.trace) > e.MaxDepth {
-		e.MaxDepth = len(s.trace)
+	r := e.res
+	r.Executions++
+	r.Steps += len(s.trace) - len(prefix)
+	r.Unmanaged += s.Unmanaged
+	if len(s.trace) > r.MaxDepth {
+		r.MaxDepth = len(s.trace)
 	}
-	var err error
-	switch {
-	case s.Diverged != "":
-		err = fmt.Errorf("NONDETERMINISM/diverged: %s", s.Diverged)
-	case s.Deadlock:
-		err = fmt.Errorf("deadlock:\n%s", s.Report)
-	case s.Pruned:
-		e.Pruned++
-	default:
-		if e.Check != nil {
-			err = e.Check(s)
+	err := e.verdict(s)
+	if s.Pruned {
+		r.Pruned++
+	} else if s.Diverged == "" && !s.Deadlock {
+		r.Complete++
+		if r.SampleTrace == nil {
+			r.SampleTrace = s.trace
 		}
-	}
-	if e.Outcome != nil && !s.Pruned {
-		e.Outcomes[e.Outcome()]++
+		if e.Outcome != nil {
+			r.Outcomes[e.Outcome()]++
+		}
 	}
 	if err != nil {
 		ch := make([]int, len(s.trace))
 		for i, p := range s.trace {
 			ch[i] = p.Chosen
 		}
-		e.Failures = append(e.Failures, Failure{Choices: ch, Err: err.Error(), Trace: s.trace})
-		if len(e.Failures) >= 5 {
-			e.MaxExec = e.Executions
+		r.Failures = append(r.Failures, Failure{Choices: ch, Err: err.Error(), Trace: s.trace, Bound: e.bound})
+		if len(r.Failures) >= e.Cfg.MaxFailures {
+			e.stop, e.res.StoppedBy = true, "failures"
 		}
 		return
 	}
-	// replay-prefix consistency: the first len(prefix) choices must match
-	for i := range prefix {
-		if s.trace[i].Chosen != prefix[i] {
-			panic("prefix not followed")
-		}
-	}
 	pre := 0
-	for i := 0; i < len(s.trace); i++ {
+	for i := 0; i < len(s.trace) && !e.stop; i++ {
 		p := s.trace[i]
 		if i >= len(prefix) {
 			for alt := 1; alt < p.NAlt; alt++ {
-				// cost of choosing alt instead of 0 at point i
 				cost := pre
-				if DelayMode {
+				if e.Cfg.Delay {
 					if alt >= p.NFirst {
 						cost++
 					}
-				} else if e.altPreempts(s, i, alt) {
+				} else if p.RunnerEn && alt >= p.NRunner {
 					cost++
 				}
-				if cost > e.Bound {
+				if cost > e.bound {
 					continue
 				}
 				np := make([]int, i+1)
+				nf := make([]uint64, i)
 				for j := 0; j < i; j++ {
 					np[j] = s.trace[j].Chosen
+					nf[j] = s.trace[j].FP
 				}
 				np[i] = alt
-				e.explore(np)
+				e.explore(np, nf)
+				if e.stop {
+					break
+				}
 			}
 		}
-		if DelayMode {
+		if e.Cfg.Delay {
 			if p.Chosen >= p.NFirst {
 				pre++
 			}
@@ -114,11 +201,4 @@ func (e *Explorer) explore(prefix []int) {
 			pre++
 		}
 	}
-}
-
-// altPreempts reports whether alternative alt at point i switches away from an enabled runner.
-// Alternatives are ordered runner-first; we conservatively recorded NRunnerAlts.
-func (e *Explorer) altPreempts(s *Sched, i, alt int) bool {
-	p := s.trace[i]
-	return p.RunnerEn && alt >= p.nRunnerAlts()
 }
